@@ -36,7 +36,7 @@ Inductive succ : pexpr -> str -> tree -> str -> Prop :=
 | s_take_except e pat (s v r : str) t : s = v ++ r -> succ e s t r -> ci_reject pat v = false ->
     succ (TakeExcept e pat) s (TStr v) r
 | s_verify p1 p2 e s t r : succ e s t r -> verify_eq p1 p2 t = true -> succ (VerifyEq p1 p2 e) s t r
-| s_nt n s t r : succ (body G n) s t r -> succ (NT n) s t r
+| s_nt n s t r : succ (body G n) s t r -> (exists f, denote G f (NT n) s = Ok (t, r)) -> succ (NT n) s t r
 with succ_many : pexpr -> str -> list tree -> str -> Prop :=
 | sm_stop e s : succ_many e s [] s
 | sm_step e s t r1 ts r : succ e s t r1 -> length r1 < length s -> succ_many e r1 ts r -> succ_many e s (t :: ts) r.
@@ -177,7 +177,7 @@ Proof.
   induction f as [|f IH]; intros e He; apply den_succ_aux; try exact He.
   - intros n s t r H. cbn [callnt] in H. discriminate.
   - intros n s t r H. cbn [callnt] in H. destruct (IH (body G n) (body_nosep n) s t r H) as [H1 H2].
-    split; [constructor; exact H1|exact H2].
+    split; [constructor; [exact H1|exists (Datatypes.S f); rewrite (denote_eq G); exact H]|exact H2].
 Qed.
 
 End S.
